@@ -6,13 +6,14 @@ package main
 // payload (fields separated by '|'):
 //   <protocol>|<op>|<otherOp or ->|<otherOp payload struct key or ->|<actions>
 // actions are separated by '/', fields of an action by '!'; variable values are '+'-joined hex ('.' = none):
-//   S!<vars>                         Subscribe<op>(vars…, handler)            (first action)
+//   S!<vars>                         Subscribe<op>(vars…, handler): ONE MORE subscription (index 0, 1, …) from the same
+//                                    emitted subscriber object / the same FScopeProvider; T!<vars> = Subscribe<otherOp>
 //   P!<vars>!<cid>!<hdrs>!<value>    Publish<op>(fctx, vars…, value)          fctx = NewFContext(cid) + user headers
 //   Q!<vars>!<cid>!<hdrs>!<value>    Publish<otherOp>(…)                      another operation of the same scope
-//   M!<hex>                          raw bytes injected on the subscription's topic
-//   E!<name>!<cid>!<hdrs>!<value>    well-formed message whose envelope names <name>, injected on the topic
-//   U                                subscription.Unsubscribe()
-// output: n=<number of calls> acts=<r,…> calls=<dump@headers/…>   r = nosub | nocb | cb:ok | cb:err | unsub | sub:<topic hex> | err:<class>
+//   M!<hex>[!<k>]                    raw bytes injected on the topic of subscription k (default 0)
+//   E!<name>!<cid>!<hdrs>!<value>[!<k>]  well-formed message whose envelope names <name>, injected on that topic
+//   U[!<k>]                          subscription k .Unsubscribe()
+// output: n=<number of calls> acts=<r,…> calls=<k:dump@headers/…>  (k = index of the subscription whose handler ran; per message one result per subscription on the topic, joined by '+')   r = nosub | nocb | cb:ok | cb:err | unsub | sub:<topic hex> | err:<class>
 // (headers = the handler context's request headers without `_opid`, sorted pairs in hex)
 
 import (
@@ -21,6 +22,7 @@ import (
 	"fmt"
 	"reflect"
 	"sort"
+	"strconv"
 	"strings"
 	"sync"
 
@@ -180,12 +182,22 @@ func runPubSub(d *Defs, scopeKey, structKey, payload string) string {
 	if o := pub.MethodByName("Open").Call(nil); !o[0].IsNil() {
 		return "publisher-open-failed"
 	}
-	st := &Ty{K: 'S', Name: structKey}
 
 	var calls []string
-	var subscription *frugal.FSubscription
-	var topic string
+	var subscriptions []*frugal.FSubscription // all made from the ONE provider, by the ONE emitted subscriber object
+	var topics []string
 	var results []string
+	pick := func(a []string, at int) (int, bool) {
+		k := 0
+		if len(a) > at {
+			n, err := strconv.Atoi(a[at])
+			if err != nil {
+				return 0, false
+			}
+			k = n
+		}
+		return k, k >= 0 && k < len(subscriptions)
+	}
 
 	buildVal := func(key, val string) (reflect.Value, bool) {
 		ctor, ok := ctors[key]
@@ -226,8 +238,14 @@ func runPubSub(d *Defs, scopeKey, structKey, payload string) string {
 	for _, act := range strings.Split(actions, "/") {
 		a := strings.Split(act, "!")
 		switch a[0] {
-		case "S":
-			mv := sub.MethodByName("Subscribe" + op)
+		case "S", "T":
+			// S: Subscribe<op>, T: Subscribe<otherOp> — one more subscription from the same subscriber object
+			sop, skey := op, structKey
+			if a[0] == "T" {
+				sop, skey = otherOp, otherKey
+			}
+			sty := &Ty{K: 'S', Name: skey}
+			mv := sub.MethodByName("Subscribe" + sop)
 			if !mv.IsValid() {
 				return "no-such-subscribe-method"
 			}
@@ -237,9 +255,10 @@ func runPubSub(d *Defs, scopeKey, structKey, payload string) string {
 				return "arity"
 			}
 			ht := mt.In(len(vars)) // func(frugal.FContext, *T)
+			idx := len(subscriptions)
 			handler := reflect.MakeFunc(ht, func(args []reflect.Value) []reflect.Value {
 				fctx := args[0].Interface().(frugal.FContext)
-				calls = append(calls, dump(d, args[1], st)+"@"+hexPairs(fctx.RequestHeaders(), "_opid"))
+				calls = append(calls, strconv.Itoa(idx)+":"+dump(d, args[1], sty)+"@"+hexPairs(fctx.RequestHeaders(), "_opid"))
 				return nil
 			})
 			var in []reflect.Value
@@ -249,21 +268,29 @@ func runPubSub(d *Defs, scopeKey, structKey, payload string) string {
 			in = append(in, handler)
 			out := mv.Call(in)
 			if !out[1].IsNil() {
-				results = append(results, errClass(out[1].Interface().(error)))
-				continue
+				return "subscribe-failed:" + errClass(out[1].Interface().(error))
 			}
-			subscription = out[0].Interface().(*frugal.FSubscription)
-			topic = subscription.Topic()
-			results = append(results, "sub:"+hex.EncodeToString([]byte(topic)))
+			sn := out[0].Interface().(*frugal.FSubscription)
+			subscriptions = append(subscriptions, sn)
+			topics = append(topics, sn.Topic())
+			results = append(results, "sub:"+hex.EncodeToString([]byte(sn.Topic())))
 		case "P":
 			results = append(results, publish(op, structKey, a))
 		case "Q":
 			results = append(results, publish(otherOp, otherKey, a))
 		case "M":
+			k, ok := pick(a, 2)
+			if !ok {
+				return "bad-subscription-index"
+			}
 			raw, _ := hex.DecodeString(a[1])
-			broker.publish(topic, raw)
+			broker.publish(topics[k], raw)
 			results = append(results, strings.Join(broker.last, "+"))
 		case "E":
+			k, okk := pick(a, 5)
+			if !okk {
+				return "bad-subscription-index"
+			}
 			obj, ok := buildVal(structKey, a[4])
 			if !ok {
 				return "no-ctor"
@@ -279,14 +306,15 @@ func runPubSub(d *Defs, scopeKey, structKey, payload string) string {
 			}
 			oprot.WriteMessageEnd(ctx)
 			oprot.Flush(ctx)
-			broker.publish(topic, buffer.Bytes())
+			broker.publish(topics[k], buffer.Bytes())
 			results = append(results, strings.Join(broker.last, "+"))
 		case "U":
-			if subscription == nil {
+			k, ok := pick(a, 1)
+			if !ok {
 				results = append(results, "no-subscription")
 				continue
 			}
-			if err := subscription.Unsubscribe(); err != nil {
+			if err := subscriptions[k].Unsubscribe(); err != nil {
 				results = append(results, errClass(err))
 			} else {
 				results = append(results, "unsub")
